@@ -109,7 +109,7 @@ PROPS = {
                 "against per-connection socket buffers/segment sizes/latencies and reader pacing drawn per run; short writes, would-block, spurious "
                 "EAGAIN, EINTR and per-call caps injected by the simulated kernel; " + NONTRIVIAL,
         "probes_expected": ["many-small-writes-on-one-connection", "bulk-input-without-write-while-writes-pending", "eagain-branch", "short-write", "write-from-foreign-thread", "file-buffer", "file-buffer-with-would-block",
-                            "input-without-write-while-writes-pending", "http-size", "http-async", "http-file", "http-stream", "http-astream", "http-hints"],
+                            "input-without-write-while-writes-pending", "http-size", "http-async", "http-file", "http-stream", "http-astream", "http-hints", "http-astreamp"],
         "assumptions": ["liveness is judged 20 simulated seconds beyond three times what the reader's own pace needs"],
         "quick": {"batches": [("c06_writes", "plain", 8000), ("c06_small", "plain", 10000), ("c06_http", "plain", 8000), ("c06_small", "tsan", 3000), ("c06_http", "tsan", 800), ("c06_small", "tsanat", 3000)], "chunk": 100},
         "thorough": {"batches": [("c06_writes", "plain", 150000), ("c06_small", "plain", 150000), ("c06_http", "plain", 150000), ("c06_small", "tsan", 30000), ("c06_small", "asan", 30000), ("c06_http", "tsan", 15000), ("c06_http", "asan", 15000), ("c06_small", "tsanat", 30000), ("c06_http", "tsanat", 3000)], "chunk": 500},
@@ -118,7 +118,7 @@ PROPS = {
         "rule": "one worker; connection 0 requests 1..4 responses larger than its buffers and stops reading for 0.2..3 s; 1..3 neighbour connections "
                 "issue small requests before, during and after the stall; c07_http: the same through the HTTP layer (one worker; the stalled connection asks for fixed-length responses, "
                 "replies from an application thread, files and chunked streams whose handler flushes every chunk on the worker thread; keep-alive neighbours); " + NONTRIVIAL,
-        "probes_expected": ["eagain-branch", "short-write", "stalled-size", "stalled-async", "stalled-file", "stalled-stream", "stalled-astream", "stalled-hints", "during-stall-next-head", "during-stall-whole-request", "during-stall-upload", "bulk-input-without-write-while-writes-pending"],
+        "probes_expected": ["eagain-branch", "short-write", "stalled-size", "stalled-async", "stalled-file", "stalled-stream", "stalled-astream", "stalled-hints", "stalled-astreamp", "neighbour-crowd", "during-stall-next-head", "during-stall-whole-request", "during-stall-upload", "bulk-input-without-write-while-writes-pending"],
         "assumptions": ["latency bound for neighbours: 100 simulated ms (quanta are microseconds; no thread stalls are injected in this scenario)"],
         "quick": {"batches": [("c07_stall", "plain", 3000), ("c06_writes", "plain", 4000), ("c07_http", "plain", 5000), ("c07_http", "asan", 500)], "chunk": 50},
         "thorough": {"batches": [("c07_stall", "plain", 30000), ("c06_writes", "plain", 50000), ("c07_http", "plain", 60000), ("c07_http", "asan", 5000), ("c07_http", "tsan", 5000)], "chunk": 200},
@@ -155,7 +155,7 @@ PROPS = {
                 "yield points of async.h and at every lock operation; " + NONTRIVIAL,
         "probes_expected": ["shape-root", "shape-derived-value", "shape-derived-void", "shape-derived-resolved-promise", "shape-derived-pending-promise",
                             "shape-derived-chain2", "shape-void-root", "shape-void-derived", "settle-reject", "attacher-builds-chain",
-                            "combinator-all", "combinator-any", "combinator-with-rejection"],
+                            "combinator-all", "combinator-any", "combinator-all-range-void", "combinator-all-range-int", "combinator-with-rejection"],
         "assumptions": ["the promise derived from a continuation that returns nothing is never fulfilled by design; only at-most-once is demanded for continuations attached to it"],
         "quick": {"batches": [("c12_settle_attach", "plain", 150000), ("c12_settle_attach", "tsan", 15000), ("c12_combinators", "plain", 60000), ("c12_combinators", "tsan", 8000), ("c12_settle_attach", "tsanat", 30000), ("c12_combinators", "tsanat", 20000)], "chunk": 2000},
         "thorough": {"batches": [("c12_settle_attach", "plain", 1500000), ("c12_settle_attach", "tsan", 150000), ("c12_combinators", "plain", 600000), ("c12_combinators", "tsan", 80000), ("c12_settle_attach", "tsanat", 300000), ("c12_combinators", "tsanat", 200000)], "chunk": 5000},
